@@ -236,6 +236,20 @@ func c03Mutations(r *rand.Rand, u c03Tuple, size int64) (out []c03Tuple, labels 
 		v.P[i], v.P[i+1] = v.P[i+1], v.P[i]
 		add("swap-adjacent", v)
 	}
+	for i := 1; i < len(u.P); i++ { // insertion and deletion inside the proof
+		v := u.clone()
+		e := gen.RandHash(r)
+		if r.Intn(2) == 0 {
+			e = u.P[i-1]
+		}
+		v.P = append(append(append([]tlog.Hash(nil), u.P[:i]...), e), u.P[i:]...)
+		add("insert-inside", v)
+		if i+1 < len(u.P) {
+			v = u.clone()
+			v.P = append(append([]tlog.Hash(nil), u.P[:i]...), u.P[i+1:]...)
+			add("delete-inside", v)
+		}
+	}
 	if len(u.P) > 0 {
 		v := u.clone()
 		v.P = v.P[1:]
